@@ -596,12 +596,50 @@ def mode_rules(ctx: Ctx) -> None:
         h = hs[0]
         warn_ok = any(isinstance(c, ast.Call) and norm(c.func) == "warnings.warn" and any(norm(a) == "InspectionWarning" for a in c.args) for c in ast.walk(h))
         store_ok = any(isinstance(s, ast.Assign) and norm(s) == "_can_use_trickery = False" for s in h.body)
+        if not store_ok and not any(isinstance(s, ast.Assign) and norm(s.targets[0]) == "_can_use_trickery" for s in ast.walk(h)):
+            # False stored before the try, nothing stored inside the try body except as its last statement: still False in the handler
+            tr = [t for t in contains(ck, ast.Try) if h in t.handlers][0]
+            g = ctx.cfg(ck)
+            pre = [s for s in ast.walk(ck) if isinstance(s, ast.Assign) and norm(s) == "_can_use_trickery = False" and not in_body(tr.body, s, mod)
+                   and g.dominates(g.node_of(s), g.node_of(tr))]
+            inner = [s for s in ast.walk(ast.Module(body=tr.body, type_ignores=[])) if isinstance(s, ast.Assign) and norm(s.targets[0]) == "_can_use_trickery"]
+            between = [s for s in ast.walk(ck) if isinstance(s, ast.Assign) and norm(s.targets[0]) == "_can_use_trickery" and s not in pre and s not in inner
+                       and not in_body(tr.orelse, s, mod) and not in_body(tr.finalbody, s, mod)
+                       and pre and g.node_of(s).idx in g.reachable_from(g.node_of(pre[0])) and g.node_of(tr).idx in g.reachable_from(g.node_of(s))]
+            if pre and not between and all(s is tr.body[-1] for s in inner):
+                store_ok = True
         if warn_ok and store_ok and not any(isinstance(n, ast.Raise) for n in ast.walk(h)):
             ctx.R.ok("MODE-3", "a failing self-test warns (InspectionWarning) and disables trickery")
         else:
             ctx.R.fail("MODE-3", mod, h, "a failing self-test must warn with InspectionWarning and store False (never raise)", construct="self-test handler")
     else:
         ctx.R.fail("MODE-3", mod, ck, "the trickery self-test is not guarded by except Exception", construct="self-test handler")
+
+
+def mode4(ctx: Ctx) -> None:
+    """MODE-4 no provisional False: the mode switch is read without the lock (fast path), so a value stored during
+    auto-detection is visible to concurrent extractions at once; storing False first and True after the self-test makes them
+    silently take the referents fallback (contexts of running frames come back empty)"""
+    mod = ctx.P.mod("_lowlevel")
+    ck = mod.fn("_check_trickery_available")
+    ctx.R.saw(mod, "_check_trickery_available")
+    g = ctx.cfg(ck)
+    stores = [s for s in ast.walk(ck) if isinstance(s, ast.Assign) and len(s.targets) == 1 and norm(s.targets[0]) == "_can_use_trickery"]
+    if not stores:
+        raise AnalysisError("MODE-4: _check_trickery_available no longer stores the switch")
+    bad = None
+    for s1 in stores:
+        if not (isinstance(s1.value, ast.Constant) and s1.value.value is False):
+            continue
+        r = g.reachable_from(g.node_of(s1))
+        for s2 in stores:
+            if s2 is not s1 and g.node_of(s2).idx in r and not (isinstance(s2.value, ast.Constant) and s2.value.value is False):
+                bad = (s1, s2)
+    if bad:
+        ctx.R.fail("MODE-4", mod, bad[0], f"the switch is set to False at line {bad[0].lineno} and may be set to `{norm(bad[1].value)[:40]}` at line {bad[1].lineno} later in the same detection: "
+                   "the lock-free fast path of a concurrent extraction returns the provisional False, and that extraction silently uses the referents fallback", construct="provisional False before the self-test")
+    else:
+        ctx.R.ok("MODE-4", f"{len(stores)} store(s) of the switch during auto-detection; none is a False that is later replaced")
 
 
 def ref1(ctx: Ctx) -> None:
@@ -876,4 +914,4 @@ def fmt13(ctx: Ctx) -> None:
 
 C18 = [fmt1, fmt2, fmt3, fmt5, fmt7, fmt10_11]
 C19 = [fmt2, fmt4, fmt6, fmt8, fmt9, fmt12, fmt13]
-C20 = [cont7, mode_rules, ref1]
+C20 = [cont7, mode_rules, mode4, ref1]
